@@ -55,6 +55,12 @@ def scan_function(fn: ast.AST, member_name: str, ordering_scope: bool, helpers=(
                 and any(isinstance(a, ast.Constant) and isinstance(a.value, float) for a in n.args) and not any("len(" in u(a) for a in n.args)):
             # a FLOAT bound next to a computed value (integer arithmetic on lengths cannot be NaN)
             out.append(("nan-unsafe-clamp", u(n)[:70], "builtin min / max return their FIRST argument when the comparison with NaN is False: min(1.0, nan) is 1.0 - an undefined value is replaced by the bound"))
+        if isinstance(n, ast.BoolOp) and isinstance(n.op, ast.Or) and len(n.values) == 2:
+            from .mirror import swap_ident as _swap
+
+            a, b = n.values
+            if isinstance(a, ast.Attribute) and isinstance(b, ast.Attribute) and u(a.value) == u(b.value) and a.attr != b.attr and _swap(a.attr) == b.attr:
+                out.append(("twin-collections-or", u(n)[:70], "`rows_thing or columns_thing` is the rows' collection whenever that is non-empty: the columns' one is consulted only when there are no rows - the two directions are not treated alike (and `or` does not concatenate)"))
         if isinstance(n, ast.DictComp) and isinstance(n.key, ast.Attribute) and n.key.attr in ("insertion_id", "name", "label", "anchor"):
             out.append(("non-unique-key", u(n)[:80], f"`.{n.key.attr}` is not unique within a dimension (explicit insertion ids may repeat or collide with generated ones; names and anchors repeat freely): a later entry replaces an earlier one"))
         if isinstance(n, (ast.If, ast.IfExp)) and _extent_equality(n.test) and _has_orientation_op(fn):
@@ -371,6 +377,7 @@ def pad(self, elements):
     block = np.full((2, 3), 0)
     block[:, 0] = self._subtotal_column(elements)
     share = self._counts / (self._table_base or 1.0)
+    any_difference = any(len(s.subtrahend_idxs) > 0 for s in self._row_subtotals or self._column_subtotals)
     a = b = [0] * len(elements)
     a[0], c = 1, 2
     b[0] = 2
